@@ -6,6 +6,7 @@ use std::fmt::Write;
 use crate::backend::{Backend, Flavour};
 use crate::choices::Ch;
 use crate::elem::Elem;
+use crate::ops_misc::CapOp;
 use crate::ops_range::*;
 use crate::ops_remove::RemKind;
 use crate::tset::TSet;
@@ -19,6 +20,12 @@ pub enum Shape {
     Step2,
     /// a generated history over three vectors (proptest / fuzz driver)
     History,
+    /// clone / clone_empty / clone_empty_in, then one operation on the original or on the clone
+    CloneThen,
+    /// 1..=3 raw-parts round trips (optionally through RawParts::clone), then one operation
+    RawThen,
+    /// with_capacity at the boundaries; growth amortisation over 2^k pushes
+    CapSpecial,
 }
 
 /// words per operation record in history mode
@@ -50,7 +57,7 @@ impl<C: Cfg> World<C> {
 
     fn op_supported(&self, o: u32) -> bool {
         match o {
-            OP_CLONE => <C::Tr as TSet>::CLONEABLE,
+            OP_CLONE | OP_LAZY => <C::Tr as TSet>::CLONEABLE,
             OP_RESERVE | OP_RESERVE_EXACT | OP_SHRINK_FIT | OP_SHRINK_TO => C::M::RESIZABLE,
             OP_RAW_PARTS => C::M::RAWPARTS,
             _ => true,
@@ -59,9 +66,19 @@ impl<C: Cfg> World<C> {
 
     /// Decode and run one operation. `hist`: history mode (three slots, random arguments).
     pub fn step(&mut self, ch: &mut Ch, hist: bool, tr: &mut String) {
+        self.step_on(ch, hist, None, tr)
+    }
+
+    pub fn step_on(&mut self, ch: &mut Ch, hist: bool, slots: Option<(usize, usize)>, tr: &mut String) {
         let ops = self.enabled_ops();
+        if ops.is_empty() {
+            let _ = write!(tr, "[no applicable operation for this configuration]");
+            return;
+        }
         let op = ops[ch.pick(ops.len() as u32) as usize];
-        let (v, w) = if hist {
+        let (v, w) = if let Some(vw) = slots {
+            vw
+        } else if hist {
             let v = ch.pick(3) as usize;
             let w = (v + 1 + ch.pick(2) as usize) % 3;
             (v, w)
@@ -72,6 +89,11 @@ impl<C: Cfg> World<C> {
         let wlen = self.model[w].len();
         let ctx: &'static str = OP_NAMES[op as usize];
         self.step_no += 1;
+        let live = crate::world::trace_live();
+        let tr_start = tr.len();
+        if live {
+            eprintln!("  step {}: {} v{} (len {}) w{} (len {}) ...", self.step_no, ctx, v, len, w, wlen);
+        }
         match op {
             OP_PUSH | OP_INSERT => {
                 let at = if op == OP_INSERT { Some(ch.pick(len as u32 + 2) as usize) } else { None };
@@ -128,11 +150,79 @@ impl<C: Cfg> World<C> {
                 let rop = self.plan_range(ch, op == OP_SPLICE, hist, v, w);
                 self.do_range(&rop, tr);
             }
+            OP_CLONE => self.do_clone(v, w, tr),
+            OP_CLONE_EMPTY => {
+                let fls = C::M::flavours(C::T::SIZE);
+                let k = ch.pick(fls.len() as u32 + 1) as usize;
+                let fl = if k == fls.len() { None } else { Some(fls[k]) };
+                self.do_clone_empty(v, w, fl, tr);
+            }
+            OP_RESERVE | OP_RESERVE_EXACT | OP_SHRINK_FIT | OP_SHRINK_TO => {
+                let cop = match op {
+                    OP_RESERVE => CapOp::Reserve,
+                    OP_RESERVE_EXACT => CapOp::ReserveExact,
+                    OP_SHRINK_FIT => CapOp::ShrinkToFit,
+                    _ => CapOp::ShrinkTo,
+                };
+                let n = if cop == CapOp::ShrinkToFit { 0 } else { self.cap_arg(ch.pick(self.cap_arg_count()) as usize, len) };
+                let typed = ch.flip();
+                self.do_capacity(cop, v, n, typed, tr);
+            }
+            OP_RAW_PARTS => {
+                let cl = ch.flip();
+                self.do_raw_parts(v, cl, tr);
+            }
+            OP_WRITE_SPARE => {
+                let k = ch.pick(4) as usize;
+                let typed = ch.flip();
+                self.do_write_spare(v, k, typed, tr);
+            }
+            OP_MUTATE => {
+                let idx = ch.pick(len.max(1) as u32) as usize;
+                let writer = ch.pick(8);
+                self.do_mutate(v, idx, writer, tr);
+                if !self.dead() && len > 0 {
+                    // read back through an independently chosen view
+                    let _ = write!(tr, " then ");
+                    let view = ch.pick(8);
+                    self.do_get(v, idx % len, view, tr);
+                }
+            }
+            OP_SWAP => {
+                let i = ch.pick(len.max(1) as u32) as usize;
+                let j = ch.pick(wlen.max(1) as u32) as usize;
+                let ka = ch.pick(5);
+                let kb = ch.pick(5);
+                self.do_swap(v, i, ka, w, j, kb, tr);
+            }
+            OP_LAZY => {
+                let kind = ch.pick(6);
+                let j = ch.pick(wlen.max(1) as u32) as usize;
+                let depth = 1 + ch.pick(3);
+                let copies = ch.pick(3) as usize; // LazyClone::clone copies
+                let mut consume = Vec::with_capacity(copies + 1);
+                for _ in 0..=copies {
+                    consume.push(ch.pick(5) as u8);
+                }
+                self.do_lazy(v, w, kind, j, depth, &consume, tr);
+            }
+            OP_BULK_PUSH => {
+                let n = 1 + ch.pick(300) as usize;
+                self.do_bulk_push(v, n, tr);
+            }
+            OP_DROP_NEW => {
+                let fls = C::M::flavours(C::T::SIZE);
+                let fl = fls[ch.pick(fls.len() as u32) as usize];
+                self.do_drop_new(v, fl, tr);
+            }
             _ => {
                 let _ = write!(tr, "<unsupported op {}>", ctx);
             }
         }
         let _ = write!(tr, "; ");
+        if live {
+            eprintln!("     done: {}", &tr[tr_start..]);
+        }
         self.check_state(ctx);
     }
 
@@ -321,6 +411,80 @@ pub fn run_case<C: Cfg>(spec: &Spec, shape: Shape, ch: &mut Ch, tr: &mut String)
                 w.step(ch, false, tr);
             }
         }
+        Shape::CloneThen => {
+            let fi = ch.pick(nf) as usize;
+            let fl = flavours[fi];
+            let maxlen = fl.fixed_cap().unwrap_or(usize::MAX).min(spec.max_len);
+            let len = ch.pick(maxlen as u32 + 1) as usize;
+            // fixed-capacity sources are also tried completely full
+            let full = fl.fixed_cap().is_some() && ch.flip();
+            let len = if full { fl.fixed_cap().unwrap().min(8) } else { len };
+            let extra = if fl.fixed_cap().is_none() { Some([0usize, 2][ch.pick(2) as usize]) } else { None };
+            let _ = write!(tr, "[{}] v0: {} len {} cap+{:?} | ", C::NAME, fl.name(), len, extra);
+            w.setup_slot(0, fl, len, extra);
+            w.setup_slot(1, fl, 0, None);
+            w.check_state("setup");
+            w.nontrivial = false;
+            let how = ch.pick(nf + 2) as usize;
+            if how == 0 {
+                w.do_clone(0, 1, tr);
+            } else if how == 1 {
+                w.do_clone_empty(0, 1, None, tr);
+            } else {
+                w.do_clone_empty(0, 1, Some(flavours[how - 2]), tr);
+            }
+            let _ = write!(tr, "; ");
+            w.check_state("clone");
+            if !w.dead() {
+                // one operation on the original or on the clone; the other one must not change
+                let on_clone = ch.flip();
+                let slots = if on_clone { (1, 0) } else { (0, 1) };
+                w.step_on(ch, false, Some(slots), tr);
+            }
+        }
+        Shape::RawThen => {
+            let fi = ch.pick(nf) as usize;
+            let fl = flavours[fi];
+            let maxlen = fl.fixed_cap().unwrap_or(usize::MAX).min(spec.max_len);
+            let len = ch.pick(maxlen as u32 + 1) as usize;
+            let extra = if fl.fixed_cap().is_none() { Some([0usize, 1, 3][ch.pick(3) as usize]) } else { None };
+            let _ = write!(tr, "[{}] v0: {} len {} cap+{:?} | ", C::NAME, fl.name(), len, extra);
+            w.setup_slot(0, fl, len, extra);
+            w.setup_slot(1, fl, fl.fixed_cap().unwrap_or(2).min(2), None);
+            w.check_state("setup");
+            w.nontrivial = false;
+            let trips = 1 + ch.pick(3);
+            for t in 0..trips {
+                let cl = ch.flip();
+                w.do_raw_parts(0, cl, tr);
+                let _ = write!(tr, "; ");
+                w.check_state("raw_parts");
+                if trips >= 2 && t == 1 {
+                    w.nontrivial = true;
+                }
+                if w.dead() {
+                    break;
+                }
+            }
+            if !w.dead() {
+                w.step(ch, false, tr);
+            }
+        }
+        Shape::CapSpecial => {
+            let fi = ch.pick(nf) as usize;
+            let fl = flavours[fi];
+            let _ = write!(tr, "[{}] {} ", C::NAME, fl.name());
+            if fl.fixed_cap().is_some() || !C::M::RESIZABLE {
+                let _ = write!(tr, "not resizable: skipped");
+            } else if ch.flip() {
+                let n = w.cap_arg(ch.pick(w.cap_arg_count()) as usize, 0);
+                w.with_capacity_case(fl, n, tr);
+            } else {
+                let k = 3 + ch.pick(spec.max_len as u32);
+                let erased = ch.flip();
+                w.amortisation_case(fl, k, erased, tr);
+            }
+        }
         Shape::History => {
             let _ = write!(tr, "[{}] ", C::NAME);
             for s in 0..3 {
@@ -338,6 +502,15 @@ pub fn run_case<C: Cfg>(spec: &Spec, shape: Shape, ch: &mut Ch, tr: &mut String)
                 ch.align(RECORD);
                 if !ch.has_more() {
                     break;
+                }
+                // 1-byte instance ids: stop before the id space (255 instances per case) runs out
+                if C::T::TRACKED && !C::T::ZST && C::T::IDBYTES == 1 {
+                    let used = crate::elem::reg(|r| r.entries.len());
+                    let total: usize = w.model.iter().map(|m| m.len()).sum();
+                    if used + total + 24 > 250 {
+                        let _ = write!(tr, "[id space nearly exhausted: history ends] ");
+                        break;
+                    }
                 }
                 w.step(ch, true, tr);
                 n += 1;
